@@ -6,7 +6,7 @@ use std::{path::PathBuf, process::Command, time::Instant};
 use serde_json::{json, Value};
 
 use crate::{
-	c07, c16, c18,
+	c04, c07, c16, c18,
 	evidence::{write_evidence, EvidenceInput},
 	harness::{self, plan_for, report_violations, run_batch, run_one, BatchCfg, BatchResult, ReplayFile, Scenario, Tier},
 	known,
@@ -34,6 +34,9 @@ pub trait Visitor {
 
 pub fn with_scenario<V: Visitor>(name: &str, v: V) -> Option<V::Out> {
 	Some(match name {
+		"c04_sweep" => v.visit(&c04::C04Sweep),
+		"c04_history" => v.visit(&c04::C04History),
+		"c04_native" => v.visit(&c04::C04Native),
 		"c07_m1" => v.visit(&c07::C07M1),
 		"c16_history" => v.visit(&c16::C16),
 		"c18_gc" => v.visit(&c18::C18Gc),
@@ -53,6 +56,7 @@ pub fn with_scenario<V: Visitor>(name: &str, v: V) -> Option<V::Out> {
 /// (scenario, quick runs, thorough runs)
 pub fn scenarios_of(property: &str) -> Vec<(&'static str, u64, u64)> {
 	match property {
+		"C04" => vec![("c04_sweep", 1_500, 100_000), ("c04_history", 15_000, 1_500_000), ("c04_native", 250, 10_000)],
 		"C07" => vec![("c07_m1", 40_000, 3_000_000)],
 		"C16" => vec![("c16_history", 30_000, 2_000_000)],
 		"C18" => vec![
@@ -67,6 +71,13 @@ pub fn scenarios_of(property: &str) -> Vec<(&'static str, u64, u64)> {
 
 fn texts(property: &str) -> (&'static str, Vec<String>) {
 	match property {
+		"C04" => (
+			"c04_sweep: one case = a depth-parametric template (function recursion, mutual recursion, object chain, array nesting + manifestation, super chain, local chain, import chain, array element chain, foldl) at 2-3 depths, evaluated under every frame limit of a seeded list (dense small limits, then strided, always 200 and 512), on fresh or shared states: each outcome must be the closed-form value or a stack overflow error, monotone in the limit, thresholds monotone in the depth, shallow recursion fits the defaults, and the guarded accessors read depth 0 / nothing evaluating after every cut-off. c04_history: 2-40 pool programs (every error kind reachable from source, cut-offs, self-dependence, runaway recursion) on one thread and two long-lived states, then a canary program that must evaluate normally. c04_native: the jrsonnet executable on runaway recursion / recursion well below the limit / self-dependence / deeply nested source, across --max-stack {200,512,5000,50000} and --os-stack settings, supervised as a child (signal, abort, hang = violation). Non-trivial = at least one cut-off or error actually happened / a non-default stack configuration was used; distinct = distinct event-log digests.",
+			vec![
+				"clause (i) of C04 over arbitrary source text and arbitrary std arguments is NOT decided by this check (it is a statement about inputs); only the process-level half is exercised on the template pool".into(),
+				"closed forms of the depth templates are right".into(),
+			],
+		),
 		"C07" => (
 			"each case is one seeded plan: a generated world of 2-7 files over /w, /w/sub and three library directories (shadowing, aliases, strict and lazy import edges, text and binary files) plus 3-25 operations (new/drop state, import/importstr/importbin through snippet, Rust API or TLA with a field projection, write/remove files, sticky and per-operation faults). A case is non-trivial when at least one injected fault actually fired at the resolver seam; distinct = distinct SHA-256 digests of the run's event log (seam calls, traces, results).",
 			vec![
